@@ -8,6 +8,8 @@ Has(r, f) == f \in DOMAIN r
 ZeroOr(ds) == IF ds = <<>> THEN <<0>> ELSE ds
 NumMatches(lit, d) ==
   IF d.k = "raw" THEN d.raw = lit
+  ELSE IF d.k = "big" THEN      \* 128-bit integers of the serialisation model: exact digits
+       LET sc == Scan(lit) IN IsPlainInt(sc) /\ d.d = ZeroOr(StripZ(sc.id)) /\ d.neg = sc.neg
   ELSE /\ d.k = Classify(lit)
        /\ d.k \in {"u64", "i64"} => (d.d = ZeroOr(StripZ(Scan(lit).id)) /\ d.neg = Scan(lit).neg)
        /\ d.k = "f64" => FloatMatches(lit, d)
